@@ -73,6 +73,7 @@ class Ctx:
         self.rng = random.Random(f'{prop}/{seed}/{json.dumps(shard, sort_keys=True)}')
         self.viol_suppressed = 0
         self._sig_count = {}
+        self.dsets = {}
 
     # -- bookkeeping ----------------------------------------------------------
     def count(self, name, n=1):
@@ -86,6 +87,10 @@ class Ctx:
         self.evaluations += 1
         if nontrivial:
             self.cases.add(_h(key))
+
+    def distinct(self, name, key):
+        """Named set of distinct observations (merged across shards; its size is reported in the evidence)."""
+        self.dsets.setdefault(name, set()).add(_h(key))
 
     def sample(self, obj):
         if len(self.samples) < MAX_SAMPLES:
@@ -151,7 +156,7 @@ class Ctx:
             'counters': self.counters, 'cases': sorted(self.cases), 'evaluations': self.evaluations,
             'violations': self.violations, 'viol_suppressed': self.viol_suppressed,
             'samples': self.samples, 'raised': self.raised, 'timeouts': self.timeouts,
-            'notes': self.notes[:20], 'elapsed': time.time() - self.t0,
+            'notes': self.notes[:20], 'elapsed': time.time() - self.t0, 'dsets': {k: sorted(v) for k, v in self.dsets.items()},
         }
 
 
@@ -321,7 +326,7 @@ def main(argv=None):
     pool = run_pool(jobs, max(1, args.jobs))
 
     merged = {'counters': {}, 'cases': set(), 'evaluations': 0, 'violations': [], 'samples': [], 'raised': {},
-              'timeouts': 0, 'viol_suppressed': 0, 'notes': []}
+              'timeouts': 0, 'viol_suppressed': 0, 'notes': [], 'dsets': {}}
     problems = []
     shard_times = []
     for i, sh in enumerate(shards):
@@ -347,6 +352,8 @@ def main(argv=None):
         for k, v in r['raised'].items():
             merged['raised'][k] = merged['raised'].get(k, 0) + v
         merged['timeouts'] += r['timeouts']
+        for k, v in r.get('dsets', {}).items():
+            merged['dsets'].setdefault(k, set()).update(v)
         merged['notes'].extend(r.get('notes', []))
         shard_times.append(round(r['elapsed'], 1))
     if not args.keep:
@@ -394,6 +401,7 @@ def main(argv=None):
         'samples': merged['samples'] or ['(no sample recorded)'],
         'exhaustive': bool(meta.get('exhaustive', {}).get(tier, False)) if isinstance(meta.get('exhaustive'), dict) else False,
         'counters': dict(sorted(merged['counters'].items())),
+        'distinct_observations': {k: len(v) for k, v in sorted(merged['dsets'].items())},
         'exceptions_recorded_not_judged': merged['raised'],
         'per_case_timeouts': merged['timeouts'],
         'shards': len(shards), 'shard_wall_s': shard_times,
@@ -418,6 +426,8 @@ def main(argv=None):
           f'distinct_nontrivial={len(merged["cases"])} timeouts={merged["timeouts"]} wall={wall:.1f}s')
     for k, v in sorted(merged['counters'].items()):
         print(f'    {k} = {v}')
+    for k, v in sorted(merged['dsets'].items()):
+        print(f'    distinct {k} = {len(v)}')
     if merged['raised']:
         print('    exceptions recorded (not judged):', dict(sorted(merged['raised'].items())))
     for eid, ws in known_hits.items():
